@@ -85,6 +85,23 @@ def Sys.arriveEnd (s : Sys) (backlog : Nat) : Sys :=
       | some t => s1.setPc t (.done (.conn c))
       | none => { s1 with acceptQ := s1.acceptQ ++ [c] }
 
+/-- `arriveEnd` when several Accept callers are blocked in the select: Go hands the connection to the
+    one that has been waiting longest (the channel's receive queue is first-in first-out); the model
+    does not track parking order, so the harness reports which caller got it (`pref`).  If `pref` is not
+    a blocked acceptor this is `arriveEnd`. -/
+def Sys.arriveEndTo (s : Sys) (backlog : Nat) (pref : Nat) : Sys :=
+  if !s.arrPending then s
+  else
+    match s.ths[pref]? with
+    | some th =>
+      if th.pc = Pc.parkedSelect ∧ s.acceptQ.length < backlog then
+        let s0 := { s with arrPending := false }
+        let c := s0.nextConn
+        let s1 := { s0 with nextConn := c + 1, wg := s0.wg + 1, table := s0.table ++ [c] }
+        s1.setPc pref (.done (.conn c))
+      else s.arriveEnd backlog
+    | none => s.arriveEnd backlog
+
 /-- an arrival nobody interleaves with -/
 def Sys.arrive (s : Sys) (backlog : Nat) : Sys := (s.arriveBegin).arriveEnd backlog
 
@@ -156,7 +173,7 @@ def Sys.init (accepted queued : Nat) (roles : List Role) : Sys :=
 
 /-- `grantErr t`: an acceptor whose select finds both a queued connection and the closed `doneCh`
     ready may take either; this is the other choice (it fails) -/
-inductive Op | grant (t : Nat) | grantErr (t : Nat) | arrive | arriveBegin | arriveEnd
+inductive Op | grant (t : Nat) | grantErr (t : Nat) | arrive | arriveBegin | arriveEnd | arriveEndTo (t : Nat) | arriveTo (t : Nat)
 deriving Repr, DecidableEq
 
 def stepOp (backlog : Nat) (s : Sys) : Op → Sys
@@ -168,6 +185,8 @@ def stepOp (backlog : Nat) (s : Sys) : Op → Sys
   | .arrive => s.arrive backlog
   | .arriveBegin => s.arriveBegin
   | .arriveEnd => s.arriveEnd backlog
+  | .arriveEndTo t => s.arriveEndTo backlog t
+  | .arriveTo t => (s.arriveBegin).arriveEndTo backlog t
 
 def run (backlog : Nat) (s : Sys) : List Op → Sys
   | [] => s
